@@ -10,6 +10,7 @@ out = {}
 out_sigs = {}
 out_names = {}
 out_consts = {}
+out_const_values = {}
 out_alias = {}
 out_callers = {}
 for fn in sorted(os.listdir(root)):
@@ -35,6 +36,8 @@ for fn in sorted(os.listdir(root)):
                 scan(getattr(st, "body", []), prefix); scan(getattr(st, "orelse", []), prefix)
     scan(tree.body)
     out[fn[:-3]] = names
+    out_const_values[fn[:-3]] = {t.id: ast.unparse(st.value) for st in tree.body if isinstance(st, (ast.Assign, ast.AnnAssign)) and st.value is not None
+                                 for t in (st.targets if isinstance(st, ast.Assign) else [st.target]) if isinstance(t, ast.Name)}
     out_consts[fn[:-3]] = sorted({t.id for st in tree.body if isinstance(st, (ast.Assign, ast.AnnAssign))
                                   for t in (st.targets if isinstance(st, ast.Assign) else [st.target]) if isinstance(t, ast.Name)})
     # same-module callers by plain name (for recognising a renamed-and-edited function by its call sites)
@@ -63,5 +66,6 @@ json.dump(out_sigs, open("/verif/sa/baseline_signatures.json", "w"), indent=1, s
 json.dump(out_names, open("/verif/sa/baseline_names.json", "w"), indent=1, sort_keys=True)
 json.dump(out_callers, open("/verif/sa/baseline_callers.json", "w"), indent=1, sort_keys=True)
 json.dump(out_consts, open("/verif/sa/baseline_consts.json", "w"), indent=1, sort_keys=True)
+json.dump(out_const_values, open("/verif/sa/baseline_const_values.json", "w"), indent=1, sort_keys=True)
 json.dump(out_alias, open("/verif/sa/baseline_ref_alias.json", "w"), indent=1, sort_keys=True)
 print({k: len(v) for k, v in out.items()})
